@@ -4,6 +4,7 @@ import (
 	"bytes"
 	"fmt"
 	"reflect"
+	"strings"
 
 	"github.com/kstenerud/go-concise-encoding/ce"
 	"pgregory.net/rapid"
@@ -187,10 +188,24 @@ func genC27(t *rapid.T, ctx *Ctx) interface{} {
 		c.Note = "version1"
 	default:
 		if isCBE {
-			v := rapid.SampledFrom([]uint64{2, 127, 128, 300, 1 << 63, 16384}).Draw(t, "cbever")
-			doc = append(append([]byte{doc[0]}, uleb(v)...), doc[2:]...)
+			var vb []byte
+			if rapid.IntRange(0, 2).Draw(t, "cbewide") == 0 {
+				// version numbers of 64 bits and more (10+ ULEB bytes): 2^64 + {0, 1, 2}, 2^70, 2^127 + 1, 2^64 with a redundant zero group
+				vb = rapid.SampledFrom([][]byte{
+					{0x80, 0x80, 0x80, 0x80, 0x80, 0x80, 0x80, 0x80, 0x80, 0x02},
+					{0x81, 0x80, 0x80, 0x80, 0x80, 0x80, 0x80, 0x80, 0x80, 0x02},
+					{0x82, 0x80, 0x80, 0x80, 0x80, 0x80, 0x80, 0x80, 0x80, 0x02},
+					{0x80, 0x80, 0x80, 0x80, 0x80, 0x80, 0x80, 0x80, 0x80, 0x80, 0x01},
+					{0x81, 0x80, 0x80, 0x80, 0x80, 0x80, 0x80, 0x80, 0x80, 0x80, 0x80, 0x80, 0x80, 0x80, 0x80, 0x80, 0x80, 0x80, 0x02},
+					{0x80, 0x80, 0x80, 0x80, 0x80, 0x80, 0x80, 0x80, 0x80, 0x82, 0x00},
+					{0xff, 0xff, 0xff, 0xff, 0xff, 0xff, 0xff, 0xff, 0xff, 0x01}, // 2^64 - 1
+				}).Draw(t, "cbeverwide")
+			} else {
+				vb = uleb(rapid.SampledFrom([]uint64{2, 3, 127, 128, 129, 255, 256, 300, 16384, 1 << 32, 1<<32 + 1, 1 << 63, 1<<64 - 1}).Draw(t, "cbever"))
+			}
+			doc = append(append([]byte{doc[0]}, vb...), doc[2:]...)
 		} else {
-			v := rapid.SampledFrom([]string{"2", "9", "10", "01", "00", "11", ""}).Draw(t, "ctever")
+			v := rapid.SampledFrom([]string{"2", "9", "10", "01", "00", "11", "", "18446744073709551616", "18446744073709551617", "4294967296", "4294967297", "-1", "-0", "1.0", "0x1", "1_"}).Draw(t, "ctever")
 			doc = append(append([]byte{doc[0]}, v...), doc[2:]...)
 		}
 		c.Note = "other-version"
@@ -361,7 +376,10 @@ func init() {
 					return fmt.Errorf("accepted document reports version event %v, expected version 0\ndoc=%s", sevs[1], docdump(kind, c.Doc))
 				}
 			}
-			if c.Note == "version1" && kind != "other" {
+			// the notes say how the header was made; "version1" / "other-version" stay meaningful when the
+			// header letter was upper-cased, and "version1" also when the body was damaged
+			firstByteReplaced := strings.Contains(c.Note, "random-first-byte") || strings.Contains(c.Note, "swapped-signature")
+			if strings.HasPrefix(c.Note, "version1") && !firstByteReplaced && kind != "other" && len(c.Doc) >= 2 && (c.Doc[1] == 1 || c.Doc[1] == '1') {
 				// a version-1 header must be treated exactly like version 0
 				d0 := doc()
 				if kind == "cbe" {
@@ -384,7 +402,7 @@ func init() {
 					return fmt.Errorf("version 1 is not handled like version 0 by the %s decoder: v0 error=%v, v1 error=%v\ndoc=%s", kind, e0, sderr, docdump(kind, c.Doc))
 				}
 			}
-			if c.Note == "other-version" && kind != "other" && sderr == nil {
+			if strings.HasPrefix(c.Note, "other-version") && !firstByteReplaced && !strings.Contains(c.Note, "mutated-body") && kind != "other" && sderr == nil {
 				return fmt.Errorf("a version other than 0 or 1 was accepted by the %s decoder\ndoc=%s", kind, docdump(kind, c.Doc))
 			}
 			return nil
